@@ -121,7 +121,9 @@ Definition effective_range (c : cfg) : option (N * N) :=
   let versions := if nonempty cv then cv else range in
   let kv := curve_versions (c_curves c) range in
   if nonempty (c_curves c) && negb (nonempty kv) then None else
-  let vs := inter versions kv in
+  (* a configuration with a pre-shared key and no certificate does not offer DTLS 1.3 (no PSK mode there) *)
+  let vs0 := inter versions kv in
+  let vs := if negb (c_psk c) || negb (c_key c =? 0) then vs0 else filter (fun v => negb (v =? v13)) vs0 in
   match vs with
   | [] => None
   | hi :: _ => Some (last vs hi, hi)
